@@ -702,6 +702,62 @@ package badger
 //@   assert[flush-stopped-after-drain] before call stopMemoryFlush : called(writeRequests#1)
 //@   assert[not-read-only] before call blockWrite : !db.opt.ReadOnly
 
+// Which tables a prefix drop rewrites: a table is rewritten when it may hold a key with ANY of
+// the prefixes; a table may hold a prefix when its smallest or biggest user key has it, or the
+// prefix sorts strictly between them and a lookup finds a key with it.
+//@ func containsAnyPrefixes
+//@   props C29
+//@   light
+//@   assert[each-prefix-tested] before call containsPrefix : arg0 == table && arg1 == listOfPrefixes[rangeindex + 1]
+//@   assert[one-match-is-enough] before return#1 : result && ret(containsPrefix#1)
+//@   assert[no-match-means-no] before return#2 : !result
+
+//@ func containsPrefix
+//@   props C29
+//@   light
+//@   assert[smallest-user-key] before call ParseKey#1 : arg0 == ret(Smallest#1)
+//@   assert[biggest-user-key] before call ParseKey#2 : arg0 == ret(Biggest#1)
+//@   assert[smallest-has-it] before return#1 : result && ret(HasPrefix#1)
+//@   assert[biggest-has-it] before return#2 : result && ret(HasPrefix#2)
+//@   assert[prefix-tests] before call HasPrefix#2 : arg0 == ret(ParseKey#2) && arg1 == prefix && !ret(HasPrefix#1)
+//@   assert[looked-up-when-inside-range] before call isPresent : ret(Compare#1) > 0 && ret(Compare#2) < 0
+//@   assert[absent-when-outside-range] before return#4 : !result
+
+//@ func containsPrefix.isPresent
+//@   props C29
+//@   light
+//@   assert[seek-newest-version-of-prefix] before call KeyWithTs : arg0 == prefix && arg1 == ^uint64(0)
+//@   assert[seek-that-key] before call Seek : arg1 == ret(KeyWithTs#1)
+//@   assert[found-key-tested] before call HasPrefix : arg0 == ret(ParseKey#1) && arg1 == prefix
+
+// dropPrefixes: on every level below 0 exactly the tables that may hold one of the prefixes are
+// grouped and rewritten with those prefixes; level 0 is compacted with the same prefixes.
+//@ func (*levelsController).dropPrefixes
+//@   props C29
+//@   light
+//@   assert[table-with-a-prefix-is-rewritten] before call append#1 : ret(containsAnyPrefixes#1)
+//@   assert[tested-against-all-prefixes] before call containsAnyPrefixes : arg0 == table && arg1 == prefixes
+//@   assert[level0-with-same-prefixes] before call doCompact : arg2.dropPrefixes == prefixes && arg2.level == 0
+
+// ---- what a re-open reads (C07) ----
+
+// Every table listed in the MANIFEST is opened with the compression and the data key recorded
+// for it there (not with the current options), from the table directory.
+//@ func newLevelsController.$1
+//@   props C07 C23
+//@   light
+//@   assert[data-key-of-table] before call DataKey : arg1 == tf.KeyID
+//@   assert[as-recorded-in-manifest] before call OpenTable : arg1.Compression == tf.Compression && arg1.DataKey == ret0(DataKey#1) && arg0 == ret0(OpenMmapFile#1)
+//@   assert[file-of-table] before call OpenMmapFile : arg0 == fname
+
+// The value log files are those found in the value directory; each is registered under the id
+// in its name, and the largest id is remembered.
+//@ func (*valueLog).populateFilesMap
+//@   props C07
+//@   light
+//@   assert[value-directory] before call ReadDir : arg0 == vlog.dirPath
+//@   assert[path-from-id] before call fpath : arg0 == vlog && arg1 == uint32(ret0(ParseUint#1))
+
 // ---- subscriptions (C32): patterns are matched against the user key ----
 
 //@ func (*publisher).publishUpdates
